@@ -11,7 +11,7 @@ fn ilist(rng: &mut Rng, n: usize) -> String {
 
 /// One block of forms; `u` is a unique suffix for global names.
 pub fn block(rng: &mut Rng, u: usize, tags: &mut Vec<String>) -> Vec<String> {
-    let t = rng.below(22);
+    let t = rng.below(23);
     tags.push(format!("cont-t{}", t));
     let a = rng.range(1, 9);
     let b = rng.range(2, 5);
@@ -348,6 +348,26 @@ pub fn block(rng: &mut Rng, u: usize, tags: &mut Vec<String>) -> Vec<String> {
             f.push(format!("(if (procedure? (car seen{u})) ((car seen{u}) {a}) 'none)", u = u, a = a));
             f.push(format!("(list n{u} (length seen{u}))", u = u));
             f
+        }
+        21 => {
+            // a continuation captured inside an unquoted element of a quasiquote template (vector or list):
+            // every return builds its own result, the result of the first return is not touched by the second
+            let vec = rng.below(2) == 0;
+            let tpl = if vec {
+                format!("`#(1 ,(call/cc (lambda (c) (set! k{u} c) 2)) 3 ,(+ {a} 1))", u = u, a = a)
+            } else {
+                format!("`(1 ,(call/cc (lambda (c) (set! k{u} c) 2)) (3 ,(+ {a} 1)) . end)", u = u, a = a)
+            };
+            vec![
+                format!("(define k{u} #f)", u = u),
+                format!("(define cnt{u} 0)", u = u),
+                format!("(define r{u} {})", tpl, u = u),
+                format!("(define saved{u} r{u})", u = u),
+                format!("(if (< cnt{u} 1) (begin (set! cnt{u} (+ cnt{u} 1)) (k{u} 20)) 'done)", u = u),
+                format!("(list saved{u} r{u} (eq? saved{u} r{u}))", u = u),
+                format!("(if (< cnt{u} 2) (begin (set! cnt{u} (+ cnt{u} 1)) (k{u} 30)) 'done)", u = u),
+                format!("(list saved{u} r{u})", u = u),
+            ]
         }
         _ => {
             // invoked from inside a for-each callback of a later form: abandons that loop
